@@ -277,7 +277,10 @@ def file_level(ck, n_cases):
         ids_before = [(v.user_id, v.record_id) for v in las.vlrs]
         if ver == "1.4":
             las.evlrs = VLRList(VLR(*r) for r in erecs)
-        las.x = [1.0, 2.0]
+        if ck.rng.random() < 0.75:
+            las.x = [1.0, 2.0]
+        else:
+            ck.count("file_without_points")       # VLRs and EVLRs of a file that holds no point
         buf = io.BytesIO()
         inp = {"kind": "file", "version": ver, "fmt": fmt, "vlrs": [[u, r, d, p.hex()[:200]] for u, r, d, p in recs], "evlrs": [[u, r, d, p.hex()[:200]] for u, r, d, p in erecs]}
         ck.case(("file", ver, fmt, tuple(recs), tuple(erecs)), nontrivial=bool(recs or erecs))
@@ -287,7 +290,8 @@ def file_level(ck, n_cases):
             compressed = ck.rng.random() < 0.35
         except ImportError:
             ck.count("no_backend_double")
-        las.x = [1.0 + i for i in range(ck.rng.choice([2, 2, 6, 11]))] if compressed else las.x
+        if compressed and len(las.points):
+            las.x = [1.0 + i for i in range(ck.rng.choice([2, 2, 6, 11]))]
         try:
             if compressed:
                 # the same lists through a compressed file (conforming backend double): the EVLRs sit after the compressed stream
